@@ -82,6 +82,9 @@ def run(ctx, rep):
     # ---- Q3
     _q3(ctx, rep)
     _q4(ctx, rep)
+    rep.rule("Q6", "calc_h_mat: the Hamiltonian coefficients are i/(2d) x Tr[L (B (x) I - I (x) conj B)]: the normalisation is 2d for every "
+                   "dimension d", floor=1)
+    _q6(ctx, rep)
     _q5(ctx, rep, cls)
 
 
@@ -296,6 +299,52 @@ def _table_element(ctx, table: str):
     if t.elem_order != "C":
         return None, "appended element is flattened in %s order" % t.elem_order
     return (t.elem, tuple(t.rows), t.offset), None
+
+
+def _q6(ctx, rep):
+    """calc_h_mat: H = sum_a  i/(2d) * Tr[ L_cb (B_a (x) I - I (x) conj(B_a)) ] * B_a  over ALL basis elements (orthonormal basis).
+    Tr[(H (x) I - I (x) H^T) (B (x) I - I (x) conj B)] = 2d Tr[H B] for traceless B, hence the factor 1/(2d)."""
+    from ..astutil import deep_inline
+    from ..poly import Poly
+    from .c03 import _size_poly, Undecided as _Und
+    f = ctx.ix.func("quara.objects.effective_lindbladian.EffectiveLindbladian.calc_h_mat")
+    con = "Hamiltonian coefficient"
+    loops = [n for n in own_nodes(f.node) if isinstance(n, ast.For)]
+    if len(loops) != 1:
+        rep.undecided("Q6", f, con, "expected one loop over the basis")
+        return
+    lp = loops[0]
+    it = unparse(deep_inline(f, lp.iter))
+    if not it.endswith(".basis()") and "basis" not in it:
+        rep.undecided("Q6", f, con, "the loop does not range over the basis (%s)" % it)
+        return
+    bdefs = {s_.targets[0].id: s_.value for s_ in lp.body if isinstance(s_, ast.Assign) and len(s_.targets) == 1 and isinstance(s_.targets[0], ast.Name)}
+    # the scalar multiplying the trace: find 1j / DEN
+    den = None
+    for n in ast.walk(lp):
+        if isinstance(n, ast.BinOp) and isinstance(n.op, ast.Div) and isinstance(n.left, ast.Constant) and isinstance(n.left.value, complex) and n.left.value == 1j:
+            den = n.right
+    if den is None:
+        rep.undecided("Q6", f, con, "no factor 1j / <normalisation> found in the loop")
+        return
+
+    def size(e):
+        e = deep_inline(f, e)
+        if isinstance(e, ast.Call) and dotted(e.func) == "len" and len(e.args) == 1 and "basis" in unparse(deep_inline(f, e.args[0])):
+            return Poly.sym("d") ** 2          # a basis of d x d matrices has d^2 elements
+        if isinstance(e, ast.BinOp) and isinstance(e.op, ast.Mult):
+            return size(e.left) * size(e.right)
+        if isinstance(e, ast.BinOp) and isinstance(e.op, ast.Pow):
+            return size(e.left) ** size(e.right)
+        return _size_poly(e, f)
+    try:
+        p = size(den)
+    except (_Und, ValueError) as ex:
+        rep.undecided("Q6", f, con, "normalisation %s: %s" % (unparse(den), ex))
+        return
+    want = Poly.const(2) * Poly.sym("d")
+    rep.check(p == want, "Q6", f, con, "i / (2 d)", "the normalisation is %r; the trace identity gives 2d (they agree for d = 2 only, so a qutrit or "
+              "two-qubit Hamiltonian is scaled by 2/d)" % p, node=den)
 
 
 def _q4(ctx, rep):
